@@ -64,10 +64,12 @@ def child_main(argv):
         q("q:mem_types", lambda: sorted(DatabaseManager().quick_info.features_data.get_mem_types("bootable_image")))
         q("q:features_of_device", lambda: digest(sorted(DatabaseManager().quick_info.devices.get_feature_list("lpc55s69"))))
         q("q:predecessor", lambda: get_device("lpc55s6x").name)
+        q("q:purpose_quick", lambda: DatabaseManager().quick_info.devices.devices["mimxrt1176"].info.purpose)
     if program in ("std", "data"):
         q("f:device_features", lambda: digest(sorted(get_db("lpc55s69").features.keys())))
         q("f:revision", lambda: get_db("lpc55s69").name)
         q("f:purpose", lambda: get_device("mimxrt1176").info.purpose)
+        q("d:defaults_marker", lambda: DatabaseManager().db.get_defaults("mbi").get("c18_marker", "none"))
         q("c:schema", lambda: digest(get_schema_file(SCHEMAS[key])))
     out = {"ok": first is None, "answers": ans}
     if first:
@@ -100,8 +102,9 @@ def install_schedule_hook(spec):
 
 
 # ----------------------------------------------------------------------------------------------- runner
-def child_env(folder, disabled=False):
+def child_env(folder, disabled=False, extra=None):
     e = {k: v for k, v in os.environ.items() if not k.startswith("SPSDK_")}
+    e.update(extra or {})
     e["SPSDK_CACHE_FOLDER"] = folder
     e["SPSDK_DEBUG_LOGGING_DISABLED"] = "1"
     e["PYTHONHASHSEED"] = "0"
@@ -110,9 +113,9 @@ def child_env(folder, disabled=False):
     return e
 
 
-def spawn(folder, key=0, program="std", disabled=False, hook=""):
+def spawn(folder, key=0, program="std", disabled=False, hook="", extra=None):
     return subprocess.Popen([sys.executable, os.path.abspath(__file__), "--child", str(key), program, hook],
-                            env=child_env(folder, disabled), stdout=subprocess.PIPE, stderr=subprocess.PIPE, text=True,
+                            env=child_env(folder, disabled, extra), stdout=subprocess.PIPE, stderr=subprocess.PIPE, text=True,
                             cwd=folder if os.path.isdir(folder) else None)
 
 
@@ -396,12 +399,15 @@ def do_classify_all_prefixes(payload):
 
 def run_case(work, case, ref, names_):
     qn, dn = names_
-    folder = os.path.join(work, "case_" + str(case["id"]))
-    shutil.rmtree(folder, ignore_errors=True)
-    os.makedirs(folder)
+    top = os.path.join(work, "case_" + str(case["id"]))
+    folder = top
+    shutil.rmtree(top, ignore_errors=True)
+    os.makedirs(top)
+    if case.get("nodir"):
+        folder = os.path.join(top, "not", "yet", "there")     # SPSDK_CACHE_FOLDER that does not exist yet
     qb, db = content_bytes(case["quick"], "quick", ref), content_bytes(case["data"], "data", ref)
     for n, b in ((qn, qb), (dn, db)):
-        if b is not None:
+        if b is not None and not case.get("nodir"):
             with open(os.path.join(folder, n), "wb") as f:
                 f.write(b)
     n = case.get("n", 1)
@@ -421,8 +427,60 @@ def run_case(work, case, ref, names_):
         res["after"] = collect(spawn(folder, case.get("then_key", 0), program))
         res["final_after"] = {"quick": classify_bytes(read_or_none(os.path.join(folder, qn)), "quick"),
                               "data": classify_bytes(read_or_none(os.path.join(folder, dn)), "data")}
-    shutil.rmtree(folder, ignore_errors=True)
+    shutil.rmtree(top, ignore_errors=True)
     return res
+
+
+def make_config_b(work):
+    """a second configuration of the data folders: a restricted-data folder whose database_defaults.yaml carries a marker
+    and an addons folder that changes the purpose of one device"""
+    import spsdk
+    import yaml
+    from spsdk.utils.misc import load_configuration
+    base = os.path.join(work, "cfgB")
+    shutil.rmtree(base, ignore_errors=True)
+    rd = os.path.join(base, "restricted")
+    os.makedirs(os.path.join(rd, "data", "devices"))
+    os.makedirs(os.path.join(rd, "data", "common"))
+    ver = spsdk.version
+    with open(os.path.join(rd, "metadata.yaml"), "w") as f:
+        f.write(f'version: "{ver.major}.{ver.minor}"\n')
+    defaults = load_configuration(os.path.join(spsdk.SPSDK_DATA_FOLDER, "common", "database_defaults.yaml"))
+    defaults["features"]["mbi"]["c18_marker"] = "restricted"
+    with open(os.path.join(rd, "data", "common", "database_defaults.yaml"), "w") as f:
+        yaml.safe_dump(defaults, f)
+    ad = os.path.join(base, "addons")
+    os.makedirs(os.path.join(ad, "devices", "mimxrt1176"))
+    with open(os.path.join(ad, "devices", "mimxrt1176", "database.yaml"), "w") as f:
+        f.write('info:\n  purpose: "C18 addons purpose"\n')
+    return {"SPSDK_RESTRICTED_DATA_FOLDER": rd, "SPSDK_ADDONS_DATA_FOLDER": ad}
+
+
+def do_configs(payload):
+    """a cache written under one configuration of restricted/addons folders must not be trusted under another one"""
+    work = payload["work"]
+    envb = make_config_b(work)
+    cfg = {"A": None, "B": envb}
+    out = {"disabled": {}, "switch": []}
+    for name, extra in cfg.items():
+        d = os.path.join(work, "cfg_dis_" + name)
+        shutil.rmtree(d, ignore_errors=True)
+        os.makedirs(d)
+        out["disabled"][name] = collect(spawn(d, 0, disabled=True, extra=extra))
+        shutil.rmtree(d, ignore_errors=True)
+    for first, second, n in payload["switches"]:
+        f = os.path.join(work, f"cfg_{first}{second}{n}")
+        shutil.rmtree(f, ignore_errors=True)
+        os.makedirs(f)
+        w = collect(spawn(f, 0, extra=cfg[first]))            # cold start writes both caches under `first`
+        ps = [spawn(f, i % 2, extra=cfg[second]) for i in range(n)]
+        rs = [collect(p) for p in ps]
+        again = collect(spawn(f, 0, extra=cfg[second]))         # and a start on what they left behind
+        out["switch"].append({"first": first, "second": second, "n": n, "writer": w, "results": rs, "again": again,
+                              "files": sorted(x for x in os.listdir(f) if x.endswith(".cache"))})
+        shutil.rmtree(f, ignore_errors=True)
+    shutil.rmtree(os.path.join(work, "cfgB"), ignore_errors=True)
+    return out
 
 
 def do_starts(payload):
@@ -472,7 +530,7 @@ def do_exceptions(payload):
 def handler(payload):
     mode = payload["mode"]
     return {"reference": do_reference, "classify": do_classify, "prefixes": do_classify_all_prefixes,
-            "starts": do_starts, "exceptions": do_exceptions}[mode](payload)
+            "starts": do_starts, "exceptions": do_exceptions, "configs": do_configs}[mode](payload)
 
 
 if __name__ == "__main__":
